@@ -21,9 +21,11 @@
 //!    all pairs of violations of different conditions, x kind x order x mode;
 //!  * ROA coverage: all (prefix, maxLength) of a trie x all subsets of an
 //!    8-atom universe of EE resources, both families, two-prefix and
-//!    two-family ROAs, inherited EE resources;
-//!  * ASPA: customer AS x all subsets of an 8-atom AS universe / inherit x
-//!    9 IP-resource combinations;
+//!    two-family ROAs; the issuing CA as a dimension (inherited, refused and
+//!    trimmed EE resources under CAs holding every subset / nothing);
+//!  * ASPA: 5 issuers (with / without IP resources, all / few ASNs) x
+//!    customer AS x all subsets of an 8-atom AS universe / inherit x
+//!    9 IP-resource combinations, refuse / trim;
 //!  * CRL callback {Ok, Err} x condition through `process()`;
 //!  * every single-bit flip of one valid object of each kind, both modes.
 //!
@@ -182,8 +184,10 @@ impl EeV {
 }
 
 /// EE certificate (key K_EE) under the CA (key K_CA).
-fn ee_der(fx: &Fx, res: Res, v: EeV, serial: u128) -> Vec<u8> {
-    let mut sp = Spec::issued(pki::Kind::Ee, K_EE, K_CA, fx.s.ski(K_CA), res, Overclaim::Refuse);
+fn ee_der(fx: &Fx, res: Res, v: EeV, serial: u128) -> Vec<u8> { ee_der_oc(fx, res, v, serial, Overclaim::Refuse) }
+
+fn ee_der_oc(fx: &Fx, res: Res, v: EeV, serial: u128, overclaim: Overclaim) -> Vec<u8> {
+    let mut sp = Spec::issued(pki::Kind::Ee, K_EE, K_CA, fx.s.ski(K_CA), res, overclaim);
     sp.validity = wide_validity();
     sp.serial = serial;
     match v {
@@ -624,18 +628,23 @@ fn main() {
     //--- (4) condition vector -----------------------------------------------------------------
     {
         let sp = ctx.space("cond.vector",
-            "kind x 6 orders x strict/relaxed x {all satisfied; every variant of every single condition violated (digest 6, signature 4, sid 2, EE 3, content-type 2, cardinality 21); all pairs of violations of two different conditions (quick: over 14 representative variants; thorough: over all 38 variants)}; non-trivial = distinct object encodings with at least one condition violated");
+            "kind x 6 orders x strict/relaxed x {all satisfied; every variant of every single condition violated (digest 6, signature 4, sid 2, EE 3, content-type 2, cardinality 21); all pairs of violations of two different conditions (quick: over 14 representative variants; thorough: over all 38 variants)}; plus every single violation x all 16 benign spellings of the wrapper (time form, digest-algorithm parameters, 4 signature-algorithm spellings) x 2 orders; non-trivial = distinct object encodings with at least one condition violated");
         let singles = all_single();
         let reps = if thorough { all_single() } else { pair_reps() };
         let mut viols: Vec<Vec<Viol>> = vec![vec![]];
         for s in &singles { viols.push(vec![*s]) }
         for (i, a) in reps.iter().enumerate() { for b in reps.iter().skip(i + 1) { if a.cond() != b.cond() { viols.push(vec![*a, *b]) } } }
+        // (kind, order, mode, violation set, spelling = time form / digest-alg NULL / signature-algorithm spelling)
         let mut jobs = Vec::new();
-        for k in KINDS { for o in &perms { for strict in [true, false] { for (vi, _) in viols.iter().enumerate() { jobs.push((k, *o, strict, vi)) } } } }
+        for k in KINDS { for o in &perms { for strict in [true, false] { for (vi, _) in viols.iter().enumerate() { jobs.push((k, *o, strict, vi, (false, false, 0u8))) } } } }
+        // every single violation crossed with every benign spelling of the wrapper (two orders)
+        for k in KINDS { for o in [perms[0], perms[4]] { for vi in 0..=singles.len() { for st_gen in [false, true] { for dn in [false, true] { for sa in 0..4u8 {
+            if (st_gen, dn, sa) != (false, false, 0) { jobs.push((k, o, true, vi, (st_gen, dn, sa))) }
+        }}}}}}
         let t = Tally::new();
         let by_cond: Mutex<BTreeMap<String, u64>> = Mutex::new(BTreeMap::new());
-        jobs.par_iter().for_each(|&(k, o, strict, vi)| {
-            let mut p = Plan::base(k); p.order = o;
+        jobs.par_iter().for_each(|&(k, o, strict, vi, (st_gen, dn, sa))| {
+            let mut p = Plan::base(k); p.order = o; p.st_gen = st_gen; p.digest_null = dn; p.sig_alg = sa;
             for v in &viols[vi] { v.apply(&mut p) }
             let bytes = assemble(&fx, &p, &ees[&(k, p.ee)]);
             let (v, _) = run(&fx, k, &bytes, &fx.ca, strict, Entry::At);
@@ -653,7 +662,33 @@ fn main() {
         sp.set("single_violation_rejections", serde_json::json!(*by_cond.lock().unwrap()));
         let mut p = Plan::base(Kind::Roa); p.sid = SidV::OtherSki; p.ee = EeV::Expired;
         sp.sample_str(|| p.witness(true));
-        sp.done(true, &format!("{} violation sets (1 + {} single + pairs) x 4 kinds x 6 orders x 2 modes", viols.len(), singles.len()));
+        sp.done(true, &format!("{} violation sets (1 + {} single + pairs) x 4 kinds x 6 orders x 2 modes; (1 + {}) x 15 further spellings x 2 orders x 4 kinds", viols.len(), singles.len(), singles.len()));
+    }
+
+    //--- (4b) evaluation instants against the EE certificate's validity ----------------------------
+    {
+        let sp = ctx.space("ee.validity.instants",
+            "manifest and generic object (the kinds with a timed entry point), 6 orders, both modes, EE certificate valid [T0-1d, 2049-12-31T23:59:59]: validate_at one second before notBefore, at notBefore, at T0, at notAfter, one second after: accepted <=> notBefore <= t <= notAfter; non-trivial = the four boundary instants");
+        let instants = [(T0 - DAY - 1, false), (T0 - DAY, true), (T0, true), (FAR, true), (FAR + 1, false)];
+        for k in [Kind::Mft, Kind::Gen] { for o in &perms {
+            let mut p = Plan::base(k); p.order = *o;
+            let bytes = assemble(&fx, &p, &ees[&(k, EeV::Ok)]);
+            for strict in [true, false] { for (t, want) in instants {
+                let r = guard(|| match k {
+                    Kind::Mft => match Manifest::decode(Bytes::copy_from_slice(&bytes), strict) {
+                        Err(e) => Verdict::Decode(e.to_string()),
+                        Ok(m) => match m.validate_at(&fx.ca, strict, pki::time(t)) { Ok(_) => Verdict::Accept, Err(e) => Verdict::Invalid(e.to_string()) } },
+                    _ => match SignedObject::decode(Bytes::copy_from_slice(&bytes), strict) {
+                        Err(e) => Verdict::Decode(e.to_string()),
+                        Ok(m) => match m.validate_at(&fx.ca, strict, pki::time(t)) { Ok(_) => Verdict::Accept, Err(e) => Verdict::Invalid(e.to_string()) } },
+                });
+                let v = match r { Ok(v) => v, Err(pn) => Verdict::Panic(pn) };
+                sp.eval(); sp.outcome(v.class()); if t != T0 { sp.nontrivial(1) }
+                expect(&ctx, "C02.ee.instants.accept", "C02.ee.instants.reject", want, &v, || format!("{} evaluated at unix {t} (EE valid [{}, {}])", p.witness(strict), T0 - DAY, FAR));
+            }}
+        }}
+        sp.sample_str(|| format!("kind=mft evaluated at unix {} (= notAfter) -> accepted", FAR));
+        sp.done(true, "2 kinds x 6 orders x 2 modes x 5 instants");
     }
 
     //--- (5) ROA coverage ------------------------------------------------------------------------
@@ -950,81 +985,135 @@ fn roa_coverage(ctx: &Ctx, fx: &Fx, thorough: bool) {
     sp.sample_str(|| "roa prefixes=[v4:00000000/1, v4:80000000/2] ee-atoms=0b00111111 -> accepted (atoms 0-3 and 4-5)".to_string());
     sp.done(true, &format!("225 same-family pairs x 256 x 2 families + two-family pairs (trie depth {}) x {} EE certificates", if thorough { 3 } else { 2 }, keys.len()));
 
-    // (d) inherited EE resources: the validated resources are the CA's
-    let sp = ctx.space("roa.coverage.inherit",
-        "EE certificate inherits the family from a CA holding subset S (256 CAs per family, S non-empty), one-prefix ROAs over the 3-level trie: accepted <=> prefix inside S; the other family absent; non-trivial = subsets neither empty nor full");
+    // (d) the issuer as a dimension: what counts is what the EE certificate has been VALIDATED to hold under this issuer
+    let sp = ctx.space("roa.coverage.issuer",
+        "issuing CAs holding (S4,S6) in {(S,none),(none,S),(S,all),(all,S)} for all 256 subsets S (none = the CA has nothing in that family); (1) EE certificate inherits {v4, v6, both}: one-prefix ROAs of either family over the trie: accepted <=> the EE inherits the prefix's family and the prefix lies inside the CA's subset of it; (2) EE certificate claims one of 15 explicit subsets of atoms {0,1,2,7} under overclaim mode refuse / trim, CAs (S,none) resp. (none,S): accepted <=> refuse: claim inside S and prefix inside claim; trim: prefix inside claim AND S; non-trivial = cases where the family is lacking at the CA, not inherited by the EE, or the claim is not inside S");
     let ta = pki::valid_ta(&fx.s, K_TA, Res::all());
+    let depth = if thorough { 3 } else { 2 };
+    let mut ca_keys: BTreeSet<(u32, u32)> = BTreeSet::new();
+    for s in 0..256u32 { ca_keys.extend([(s, 0), (0, s), (s, 255), (255, s)]) }
+    let ca_keys: Vec<(u32, u32)> = ca_keys.into_iter().collect();
+    let cas: Vec<ResourceCert> = ca_keys.par_iter().map(|&(a, b)| {
+        pki::valid_ca(&fx.s, &ta, K_TA, K_CA, Res { v4: subset_claim(a, false), v6: subset_claim(b, true), asn: Claim::Blocks(vec![(1, 1)]) })
+    }).collect();
+    // contents: (v6, prefix, pre-signed)
+    let mut contents: Vec<(bool, Pfx)> = Vec::new();
+    for v6 in [false, true] { for (bits, len) in trie(v6, depth) { contents.push((v6, Pfx { bits, len, max: None })) } }
+    let signed: Vec<Signed> = contents.par_iter().map(|(v6, p)| {
+        let a = [to_roa_addr(p, *v6)];
+        presign(fx, Kind::Roa, if *v6 { der::roa_content(None, 64496, None, Some(&a)) } else { der::roa_content(None, 64496, Some(&a), None) })
+    }).collect();
     let t = Tally::new();
     let nt = Mutex::new(0u64);
-    for v6 in [false, true] {
-        let nodes = trie(v6, 3);
-        let signed: Vec<Signed> = nodes.par_iter().map(|&(bits, len)| {
-            let a = [to_roa_addr(&Pfx { bits, len, max: None }, v6)];
-            presign(fx, Kind::Roa, if v6 { der::roa_content(None, 64496, None, Some(&a)) } else { der::roa_content(None, 64496, Some(&a), None) })
-        }).collect();
-        let mut res = Res { v4: Claim::Missing, v6: Claim::Missing, asn: Claim::Missing };
-        if v6 { res.v6 = Claim::Inherit } else { res.v4 = Claim::Inherit }
-        let cert = ee_der(fx, res, EeV::Ok, 77);
-        let cas: Vec<ResourceCert> = (1..256u32).into_par_iter().map(|s| {
-            let mut r = Res { v4: Claim::Missing, v6: Claim::Missing, asn: Claim::Blocks(vec![(1, 1)]) };
-            if v6 { r.v6 = subset_claim(s, true) } else { r.v4 = subset_claim(s, false) }
-            pki::valid_ca(&fx.s, &ta, K_TA, K_CA, r)
-        }).collect();
-        (0..nodes.len() * 255).into_par_iter().for_each(|i| {
-            let (pi, si) = (i / 255, i % 255);
-            let s = si as u32 + 1;
-            let p = Pfx { bits: nodes[pi].0, len: nodes[pi].1, max: None };
-            let bytes = wrap(fx, Kind::Roa, &signed[pi], &cert);
-            let (v, _) = run(fx, Kind::Roa, &bytes, &cas[si], true, Entry::Process(true));
-            t.add(v.class());
-            if s != 255 { *nt.lock().unwrap() += 1 }
-            expect(ctx, "C02.roa.covered.accept", "C02.roa.uncovered.reject", covered(s, &p, v6), &v,
-                || format!("roa prefix={} ee inherits from CA with atoms={:#010b}", render_pfx(&p, v6), s));
-        });
-        sp.evals(nodes.len() as u64 * 255);
-    }
+    // (1) inheriting EE certificates
+    let inh: Vec<(bool, bool, Vec<u8>)> = [(true, false), (false, true), (true, true)].into_iter().enumerate().map(|(i, (i4, i6))| {
+        let res = Res { v4: if i4 { Claim::Inherit } else { Claim::Missing }, v6: if i6 { Claim::Inherit } else { Claim::Missing }, asn: Claim::Missing };
+        (i4, i6, ee_der(fx, res, EeV::Ok, 70 + i as u128))
+    }).collect();
+    let (nc, ni) = (contents.len(), inh.len());
+    (0..ca_keys.len() * ni * nc).into_par_iter().for_each(|i| {
+        let (ki, r) = (i / (ni * nc), i % (ni * nc));
+        let (ii, ci) = (r / nc, r % nc);
+        let (s4, s6) = ca_keys[ki];
+        let (i4, i6, cert) = &inh[ii];
+        let (v6, p) = &contents[ci];
+        let bytes = wrap(fx, Kind::Roa, &signed[ci], cert);
+        let (v, _) = run(fx, Kind::Roa, &bytes, &cas[ki], true, Entry::Process(true));
+        t.add(v.class());
+        let (inherits, s) = if *v6 { (*i6, s6) } else { (*i4, s4) };
+        if !inherits || s == 0 { *nt.lock().unwrap() += 1 }
+        expect(ctx, "C02.roa.covered.accept", "C02.roa.uncovered.reject", inherits && covered(s, p, *v6), &v,
+            || format!("roa prefix={} ee inherits {} from CA with v4-atoms={:#010b} v6-atoms={:#010b} (0 = CA holds nothing in the family)", render_pfx(p, *v6),
+                match (i4, i6) { (true, true) => "v4+v6", (true, false) => "v4 only", _ => "v6 only" }, s4, s6));
+    });
+    sp.evals((ca_keys.len() * ni * nc) as u64);
+    // (2) explicit claims under refuse / trim
+    let claims: Vec<u32> = (1..16u32).map(|m| (m & 7) | ((m >> 3) << 7)).collect();
+    let mut ekeys = Vec::new();
+    for v6 in [false, true] { for &c in &claims { for trim in [false, true] { ekeys.push((v6, c, trim)) } } }
+    let ecerts: Vec<Vec<u8>> = ekeys.par_iter().enumerate().map(|(i, &(v6, c, trim))| {
+        let res = if v6 { Res { v4: Claim::Missing, v6: subset_claim(c, true), asn: Claim::Missing } } else { Res { v4: subset_claim(c, false), v6: Claim::Missing, asn: Claim::Missing } };
+        ee_der_oc(fx, res, EeV::Ok, 300 + i as u128, if trim { Overclaim::Trim } else { Overclaim::Refuse })
+    }).collect();
+    let ca_index: BTreeMap<(u32, u32), usize> = ca_keys.iter().enumerate().map(|(i, k)| (*k, i)).collect();
+    let per = nc / 2; // contents of one family
+    (0..ekeys.len() * 256 * per).into_par_iter().for_each(|i| {
+        let (ei, r) = (i / (256 * per), i % (256 * per));
+        let (s, pi) = ((r / per) as u32, r % per);
+        let (v6, c, trim) = ekeys[ei];
+        let ci = if v6 { per + pi } else { pi };
+        let p = &contents[ci].1;
+        let ki = ca_index[&if v6 { (0, s) } else { (s, 0) }];
+        let bytes = wrap(fx, Kind::Roa, &signed[ci], &ecerts[ei]);
+        let (v, _) = run(fx, Kind::Roa, &bytes, &cas[ki], true, Entry::Process(true));
+        t.add(v.class());
+        let inside = c & !s == 0;
+        if !inside { *nt.lock().unwrap() += 1 }
+        let want = if trim { covered(c & s, p, v6) } else { inside && covered(c, p, v6) };
+        expect(ctx, "C02.roa.covered.accept", "C02.roa.uncovered.reject", want, &v,
+            || format!("roa prefix={} ee claims atoms={:#010b} overclaim={} under CA with atoms={:#010b} ({})", render_pfx(p, v6), c, if trim { "trim" } else { "refuse" }, s, if v6 { "v6" } else { "v4" }));
+    });
+    sp.evals((ekeys.len() * 256 * per) as u64);
     sp.nontrivial(*nt.lock().unwrap());
     sp.merge_outcomes(&t.oc.lock().unwrap());
-    sp.sample_str(|| "roa prefix=v4:40000000/2 ee inherits from CA with atoms=0b00001100 -> accepted".to_string());
-    sp.done(true, "15 prefixes x 255 issuing CAs x 2 families");
+    sp.set("issuing_cas", serde_json::json!(ca_keys.len()));
+    sp.sample_str(|| "roa prefix=v6:00000000000000000000000000000000/1 ee inherits v4+v6 from CA with v4-atoms=0b11111111 v6-atoms=0b00000000 -> rejected".to_string());
+    sp.sample_str(|| "roa prefix=v4:00000000/3 ee claims atoms=0b10000001 overclaim=trim under CA with atoms=0b00000001 (v4) -> accepted".to_string());
+    sp.done(true, &format!("{} issuing CAs x 3 inheriting EE certificates x {} prefixes; 60 claiming EE certificates x 256 CAs x {} prefixes", ca_keys.len(), nc, per));
 }
 
 //------------ ASPA ---------------------------------------------------------------------------------
 
 fn aspa_space(ctx: &Ctx, fx: &Fx) {
     let sp = ctx.space("aspa.resources",
-        "customer AS from 12 values x EE AS resources in {every subset of the 8-atom universe {0,1,2,3,64512,64513,MAX-1,MAX} (empty = extension absent), inherit} x EE IPv4 in {absent, inherit, 10.0.0.0/8} x EE IPv6 in {absent, inherit, 2001:db8::/32}: accepted <=> customer in the subset, AS not inherited, both IP extensions absent; non-trivial = cases with no IP extension and a non-empty explicit AS subset");
+        "issuing CA in {everything, v4+AS, v6+AS, AS only, AS atoms {0,1,2,3} only} x customer AS from 12 values x EE AS resources in {every subset of the 8-atom universe {0,1,2,3,64512,64513,MAX-1,MAX} (empty = extension absent), inherit} x EE IPv4 in {absent, inherit, 10.0.0.0/8} x EE IPv6 in {absent, inherit, 2001:db8::/32} (overclaim refuse), plus every explicit AS subset without IP extensions under overclaim trim: accepted <=> the EE certificate carries no IP resources extension at all (whatever the issuer holds), AS not inherited, and the customer is in the validated AS resources (refuse: subset inside the CA's, else nothing; trim: subset AND the CA's); non-trivial = cases with no IP extension and a non-empty explicit AS subset, plus all cases with an inherited IP family the CA lacks");
     const MAX: u128 = u32::MAX as u128;
     let atoms: [u128; 8] = [0, 1, 2, 3, 64512, 64513, MAX - 1, MAX];
     let customers: Vec<u128> = vec![0, 1, 2, 3, 4, 64511, 64512, 64513, 64514, MAX - 2, MAX - 1, MAX];
     let ipc = |n: u32, v6: bool| match n { 0 => Claim::Missing, 1 => Claim::Inherit, _ => if v6 { Claim::Blocks(vec![(0x2001_0db8u128 << 96, (0x2001_0db9u128 << 96) - 1)]) } else { Claim::Blocks(vec![(0x0a00_0000, 0x0aff_ffff)]) } };
-    // AS choice: 0..=255 subsets (0 = absent), 256 = inherit
+    // issuers: (name, holds v4, holds v6, AS mask over the atoms)
+    let ta = pki::valid_ta(&fx.s, K_TA, Res::all());
+    let all = Res::all();
+    let issuer_specs: Vec<(&str, bool, bool, u32)> = vec![("everything", true, true, 255), ("v4+AS", true, false, 255), ("v6+AS", false, true, 255), ("AS only", false, false, 255), ("AS 0-3 only", false, false, 0b1111)];
+    let issuers: Vec<ResourceCert> = issuer_specs.iter().map(|&(_, h4, h6, m)| {
+        let res = Res { v4: if h4 { all.v4.clone() } else { Claim::Missing }, v6: if h6 { all.v6.clone() } else { Claim::Missing },
+                        asn: if m == 255 { all.asn.clone() } else { Claim::Blocks(vec![(0, 3)]) } };
+        pki::valid_ca(&fx.s, &ta, K_TA, K_CA, res)
+    }).collect();
+    // AS choice: 0..=255 subsets (0 = absent), 256 = inherit; last field: overclaim trim
     let mut keys = Vec::new();
-    for a in 0..=256u32 { for i4 in 0..3u32 { for i6 in 0..3u32 { keys.push((a, i4, i6)) } } }
-    let certs: Vec<Vec<u8>> = keys.par_iter().map(|&(a, i4, i6)| {
+    for a in 0..=256u32 { for i4 in 0..3u32 { for i6 in 0..3u32 { keys.push((a, i4, i6, false)) } } }
+    for a in 1..256u32 { keys.push((a, 0, 0, true)) }
+    let certs: Vec<Vec<u8>> = keys.par_iter().map(|&(a, i4, i6, trim)| {
         let asn = if a == 256 { Claim::Inherit } else if a == 0 { Claim::Missing } else { Claim::Blocks((0..8).filter(|i| a >> i & 1 == 1).map(|i| (atoms[i], atoms[i])).collect()) };
-        ee_der(fx, Res { v4: ipc(i4, false), v6: ipc(i6, true), asn }, EeV::Ok, 5000 + (a as u128) * 16 + (i4 * 3 + i6) as u128)
+        ee_der_oc(fx, Res { v4: ipc(i4, false), v6: ipc(i6, true), asn }, EeV::Ok, 5000 + (a as u128) * 32 + (i4 * 3 + i6) as u128 + if trim { 16 } else { 0 },
+            if trim { Overclaim::Trim } else { Overclaim::Refuse })
     }).collect();
     let signed: Vec<Signed> = customers.par_iter().map(|&c| presign(fx, Kind::Aspa, der::aspa_content(Some(1), c, &[65000, 65001]))).collect();
     let t = Tally::new();
     let nt = Mutex::new(0u64);
-    (0..keys.len() * customers.len()).into_par_iter().for_each(|i| {
-        let (ki, ci) = (i / customers.len(), i % customers.len());
-        let (a, i4, i6) = keys[ki];
+    let (nk, ncu) = (keys.len(), customers.len());
+    (0..issuers.len() * nk * ncu).into_par_iter().for_each(|i| {
+        let (ii, r) = (i / (nk * ncu), i % (nk * ncu));
+        let (ki, ci) = (r / ncu, r % ncu);
+        let (a, i4, i6, trim) = keys[ki];
+        let (iname, h4, h6, mask) = issuer_specs[ii];
         let c = customers[ci];
         let bytes = wrap(fx, Kind::Aspa, &signed[ci], &certs[ki]);
-        let (v, _) = run(fx, Kind::Aspa, &bytes, &fx.ca, true, Entry::Process(true));
+        let (v, _) = run(fx, Kind::Aspa, &bytes, &issuers[ii], true, Entry::Process(true));
         t.add(v.class());
-        let in_set = a < 256 && (0..8).any(|k| a >> k & 1 == 1 && atoms[k] == c);
-        let want = in_set && i4 == 0 && i6 == 0;
-        if a != 0 && a < 256 && i4 == 0 && i6 == 0 { *nt.lock().unwrap() += 1 }
+        let validated: u32 = if a == 0 || a == 256 { 0 } else if trim { a & mask } else if a & !mask == 0 { a } else { 0 };
+        let in_set = (0..8).any(|k| validated >> k & 1 == 1 && atoms[k] == c);
+        let want = in_set && a != 256 && i4 == 0 && i6 == 0;
+        let lacking_inherit = (i4 == 1 && !h4) || (i6 == 1 && !h6);
+        if (a != 0 && a < 256 && i4 == 0 && i6 == 0) || lacking_inherit { *nt.lock().unwrap() += 1 }
         expect(ctx, "C02.aspa.accept", "C02.aspa.reject", want, &v,
-            || format!("aspa customer=AS{} ee-as={} ee-v4={} ee-v6={}", c, if a == 256 { "inherit".to_string() } else { format!("atoms {:#010b} of [0,1,2,3,64512,64513,MAX-1,MAX]", a) },
-                ["absent", "inherit", "10.0.0.0/8"][i4 as usize], ["absent", "inherit", "2001:db8::/32"][i6 as usize]));
+            || format!("aspa customer=AS{} issuer holds {} ee-as={}{} ee-v4={} ee-v6={}", c, iname, if a == 256 { "inherit".to_string() } else { format!("atoms {:#010b} of [0,1,2,3,64512,64513,MAX-1,MAX]", a) },
+                if trim { " (overclaim trim)" } else { "" }, ["absent", "inherit", "10.0.0.0/8"][i4 as usize], ["absent", "inherit", "2001:db8::/32"][i6 as usize]));
     });
-    sp.evals((keys.len() * customers.len()) as u64);
+    sp.evals((issuers.len() * nk * ncu) as u64);
     sp.nontrivial(*nt.lock().unwrap());
     sp.merge_outcomes(&t.oc.lock().unwrap());
-    sp.sample_str(|| "aspa customer=AS64512 ee-as=atoms 0b00010000 ee-v4=absent ee-v6=absent -> accepted".to_string());
-    sp.done(true, "12 customers x 257 AS choices x 3 x 3 IP choices");
+    sp.sample_str(|| "aspa customer=AS64512 issuer holds AS only ee-as=atoms 0b00010000 ee-v4=inherit ee-v6=absent -> rejected (IP resources extension present)".to_string());
+    sp.done(true, "5 issuers x 12 customers x (257 AS choices x 3 x 3 IP choices + 255 trimmed AS subsets)");
 }
